@@ -820,3 +820,32 @@ func ns3InvalidateAllLevels(c *Ctx) {
 	c.Oblige("invalidate-all-levels", f.Pos(), coversStack && coversLast,
 		"InvalidateDisabledNamespaces does not reach every level (all of Stack and Last): a disabled namespace at an outer level would stay usable after a failed nested call")
 }
+
+// namespaceInsertFunc returns the function that decides whether a name is new in an objectNamespace:
+// objectNamespace.insert, or — if it was renamed or its bool parameter was replaced by two call
+// sites — the unexported objectNamespace method that both insertQuoted and InsertUnquoted end up calling.
+func namespaceInsertFunc(p *Program) *FuncInfo {
+	if f := p.Func("jsontext.(*objectNamespace).insert"); f != nil {
+		return f
+	}
+	q, u := p.Func("jsontext.(*objectNamespace).insertQuoted"), p.Func("jsontext.(*objectNamespace).InsertUnquoted")
+	if q == nil || u == nil {
+		return nil
+	}
+	inQ := map[*FuncInfo]bool{}
+	for _, g := range p.CalleeClosure(q, 2) {
+		inQ[g] = true
+	}
+	for _, g := range p.CalleeClosure(u, 2) {
+		if g != u && g != q && inQ[g] && g.Obj != nil {
+			if sig, ok := g.Obj.Type().(*types.Signature); ok && sig.Recv() != nil && isNamed(sig.Recv().Type(), pkgAlias["jsontext"], "objectNamespace") {
+				if sig.Results().Len() == 1 {
+					if bt, ok := sig.Results().At(0).Type().(*types.Basic); ok && bt.Kind() == types.Bool {
+						return g
+					}
+				}
+			}
+		}
+	}
+	return nil
+}
